@@ -151,6 +151,9 @@ func (c *collector) add(mode string, n int, g Graph, evs []Event, out vsched.Out
 	t := &TraceRec{N: n, Events: evs, End: out.Status, Count: 1, Mode: mode, Graph: &gg}
 	if out.Status != "done" {
 		t.Sched = out.Trace
+		if len(t.Sched) > 300 {
+			t.Sched = t.Sched[:300]
+		}
 		t.Detail = out.Detail
 		if len(t.Detail) > 1500 {
 			t.Detail = t.Detail[:1500]
